@@ -480,8 +480,17 @@ fn used_and_call<V: VringT<dmn::Mem> + Clone + Send + Sync + 'static>(cfg: &Cfg,
         let files = [&a, &b];
         let mut counts = [0u64; 3];
         let mut trace: Vec<String> = Vec::new();
+        let errfd = EventFd::new(libc::EFD_NONBLOCK).expect("eventfd");
         for step in 0..cfg.pick(10, 30) {
-            match rng.below(5) {
+            match rng.below(6) {
+                5 => {
+                    // the error descriptor is not the call descriptor: installing it changes nothing here
+                    if w.fe().set_vring_err(q, &errfd).is_err() {
+                        report::inconclusive("set_vring_err");
+                        return;
+                    }
+                    trace.push("SET_VRING_ERR(other fd)".into());
+                }
                 0 | 1 => {
                     let i = rng.below(3) as usize;
                     if w.fe().set_vring_call(q, &calls[i]).is_err() {
@@ -545,6 +554,10 @@ fn used_and_call<V: VringT<dmn::Mem> + Clone + Send + Sync + 'static>(cfg: &Cfg,
                 counts[i] += 1;
             }
             let got: Vec<u64> = calls.iter().map(cnt).collect();
+            if cnt(&errfd) != 0 {
+                viol(cfg, "signal_used_queue:signalled-the-error-descriptor", jo! {"trace" => trace.clone(), "error_eventfd_count" => cnt(&errfd)}, "used");
+                return;
+            }
             if got != counts.to_vec() {
                 viol(cfg, "signal_used_queue:wrong-call-descriptor", jo! {"trace" => trace.clone(), "latest_call_fd" => cur_call.map(|i| i as u64), "eventfd_counts" => got, "expected_counts" => counts.to_vec()}, "used");
                 return;
